@@ -1,4 +1,5 @@
 import HotstuffModel.Model.Bytes
+import HotstuffModel.Generated.Switches
 /-!
 # base64 (crate `base64` 0.13, `STANDARD` config) and the key codecs of `crypto/src/lib.rs`
 
@@ -112,7 +113,7 @@ def decodeKey (checkedSlice : Bool) (n : Nat) (s : List UInt8) : Res (List UInt8
 
 /-- THE SWITCH: does the pinned tree use the checked slice in `decode_base64`?
 `false` = code as it is (F3); flip to `true` together with the `fix:` commit. -/
-def currentCheckedSlice : Bool := false
+def currentCheckedSlice : Bool := Gen.keySliceChecked
 
 def decodePublicKey (checkedSlice : Bool) (s : List UInt8) : Res (List UInt8) := decodeKey checkedSlice 32 s
 def decodeSecretKey (checkedSlice : Bool) (s : List UInt8) : Res (List UInt8) := decodeKey checkedSlice 64 s
